@@ -16,14 +16,14 @@ def run(chk, replay=None):
         import data_common
         return data_common.run_data(chk, ['array'], replay=replay)
     t = 't' if chk.thorough else 'q'
-    cfgs = ['c08%s_%s' % (x, t) for x in 'abc']
+    cfgs = ['c08%s_%s' % (x, t) for x in 'abcd']
     sims = [('all', 3000 if chk.thorough else 200, 30)]
     judge = lambda r: r['step']['res'] == 'reject' and not any(s['a'] == 'Open' and s['args']['n'] == 'ro' for s in r['pre'])
     chk.rule = ('one case per rejected transition (self-loop) in every reachable state of 3 bounded universes (BFS exhaustive) plus rejected '
                 'steps of random behaviours over the whole vocabulary; each case: the call must throw and the full observation, also after '
                 'close+reopen, must be unchanged')
     file_common.run_file_check(chk, cfgs, sims, judge=judge, replay=replay, opts={'reopen_check': True, 'ignore_handles': True},
-                               coverage=['Create:reject', 'CreateBad:reject', 'SetOne:reject', 'AddLink:reject', 'SetType:reject'])
+                               coverage=['Create:reject', 'CreateBad:reject', 'SetOne:reject', 'AddLink:reject', 'SetType:reject', 'SetLinks:reject'])
     # rejected calls of the data / dimension APIs: same rule, judged on NixData and NixDims (only the rejected transitions)
     import data_common, dims_common, vcheck
     rej = lambda r: r['step']['res'] == 'reject'
